@@ -7,7 +7,9 @@ import q
 class CallGraph:
     def __init__(self, facts):
         self.facts = facts
-        self.bodies = {b.path: b for b in facts.bodies if b.promoted is None}
+        # (a body the normal form spliced into all of its callers - a new private helper, a desugared closure - no
+        #  longer exists as a caller of its own: its calls are its callers' calls)
+        self.bodies = {b.path: b for b in facts.bodies if b.promoted is None and not b.raw.get("inlined_away")}
         self.edges = {p: set() for p in self.bodies}
         self.call_sites = {}  # (caller, callee) -> [bb]
         # local impls of trait methods: trait method path -> [body path]
